@@ -606,7 +606,7 @@ func TestEnum(t *testing.T) {
 	})
 }
 
-func TestReplay(t *testing.T) { core.Replay(t, dictCheck, augCheck, inlineCheck, subsetCheck, bigvalCheck, bigvalFixedCheck, augSignedCheck) }
+func TestReplay(t *testing.T) { core.Replay(t, dictCheck, augCheck, inlineCheck, subsetCheck, bigvalCheck, bigvalFixedCheck, augSignedCheck, nestedCheck) }
 
 func bitsFromString(s string) ref.Bits {
 	b := make(ref.Bits, len(s))
